@@ -501,3 +501,353 @@ Proof.
   - left. split; [exact E|]. assert (P' : In (mf_path m) (fst (discover (v_test_run v) (v_glob v)))) by (rewrite ED; exact P).
     apply walkable_iff in P'. destruct P' as [F1 [F2 F3]]. rewrite TR in F2. destruct F2 as [F2|F2]; [discriminate|]. auto.
 Qed.
+
+(* ======================================================================================================== *)
+(* exact stack discipline: a node changes only the frame it was entered on (header preserved); everything below   *)
+(* stays as it is                                                                                               *)
+(* ======================================================================================================== *)
+Definition top_only (st st' : vstate) : Prop :=
+  exists top rest top', vs_stack st = top :: rest /\ vs_stack st' = top' :: rest /\ hdr_eq top top'.
+
+Section Exact.
+  Variables (al : aliases) (d : docs) (pref_doc warn : bool).
+
+  Lemma assign_step_shape items : forall stack attrs insts out,
+    fold_left assign_step items (Ok (stack, attrs, insts)) = Ok out ->
+    fst (fst out) = stack \/
+    (exists a a' r, stack = a :: r /\ fst (fst out) = a' :: r /\ hdr_eq a a' /\ (forall f, a <> FFunc f)) \/
+    (exists f b b' r, stack = FFunc f :: b :: r /\ fst (fst out) = FFunc f :: b' :: r /\ hdr_eq b b').
+  Proof.
+    induction items as [|it r IH]; intros stack attrs insts out H; cbn [fold_left] in H.
+    - inversion H; subst. left. reflexivity.
+    - destruct (assign_step (Ok (stack, attrs, insts)) it) as [[[stack' attrs'] insts']|e] eqn:E; [|rewrite assign_fold_err in H; discriminate].
+      apply IH in H. unfold assign_step in E. cbn [bind] in E.
+      destruct it as [a|id n]; destruct stack as [|[m|c|f|e|i] r2]; inv_ok; try exact H.
+      + (* attribute on a class *)
+        right. left. destruct H as [H|[H|H]].
+        * exists (FClass c), (FClass (cls_add_attr c a)), r2. rewrite H. split; [reflexivity|]. split; [reflexivity|]. split; [destruct c; cbn; auto|discriminate].
+        * destruct H as [x [x' [r' [E1 [E2 [E3 E4]]]]]]. inversion E1; subst. exists (FClass c), x', r'.
+          split; [reflexivity|]. split; [exact E2|]. split; [|discriminate].
+          eapply hdr_trans; [|exact E3]. destruct c; cbn; auto.
+        * destruct H as [f [b [b' [r' [E1 _]]]]]. discriminate E1.
+      + (* attribute in __init__: the class below the function *)
+        destruct r2 as [|[m|c|f'|e|i] r3]; inv_ok. right. right. destruct H as [H|[H|H]].
+        * exists f, (FClass c), (FClass (cls_add_attr c a)), r3. rewrite H. split; [reflexivity|]. split; [reflexivity|]. destruct c; cbn; auto.
+        * destruct H as [x [x' [r' [E1 [E2 [E3 E4]]]]]]. inversion E1; subst. exfalso. eapply E4. reflexivity.
+        * destruct H as [f0 [b [b' [r' [E1 [E2 E3]]]]]]. inversion E1; subst. exists f0, (FClass c), b', r'.
+          split; [reflexivity|]. split; [exact E2|]. eapply hdr_trans; [|exact E3]. destruct c; cbn; auto.
+      + (* enum instance *)
+        right. left. destruct H as [H|[H|H]].
+        * exists (FEnum e), (FEnum (enum_add_instance e id n)), r2. rewrite H. split; [reflexivity|]. split; [reflexivity|]. split; [cbn; auto|discriminate].
+        * destruct H as [x [x' [r' [E1 [E2 [E3 E4]]]]]]. inversion E1; subst. exists (FEnum e), x', r'.
+          split; [reflexivity|]. split; [exact E2|]. split; [|discriminate]. eapply hdr_trans; [|exact E3]. cbn. auto.
+        * destruct H as [f [b [b' [r' [E1 _]]]]]. discriminate E1.
+  Qed.
+
+  Lemma assign_fold_module items : forall f m r A I out,
+    fold_left assign_step items (Ok (FFunc f :: FModule m :: r, A, I)) = Ok out -> fst (fst out) = FFunc f :: FModule m :: r.
+  Proof.
+    induction items as [|it its IH]; intros f m r A I out H; cbn [fold_left] in H; [inversion H; reflexivity|].
+    unfold assign_step at 2 in H. cbn [bind] in H. destruct it; [rewrite assign_fold_err in H; discriminate|].
+    eapply IH. exact H.
+  Qed.
+
+  (* an assignment statement: enter, leave *)
+  Lemma assign_pair st lvs ut s1 w1 s2 :
+    enter_assign al d st lvs ut = Ok (s1, w1) -> leave_assign s1 = Ok s2 ->
+    vs_stack s2 = vs_stack st \/
+    (exists a a' r, vs_stack st = a :: r /\ vs_stack s2 = a' :: r /\ hdr_eq a a' /\ (forall f, a <> FFunc f)) \/
+    (exists f b b' r, vs_stack st = FFunc f :: b :: r /\ vs_stack s2 = FFunc f :: b' :: r /\ hdr_eq b b').
+  Proof.
+    intros HE HL. unfold enter_assign in HE. inv_ok.
+    match goal with x : (list aitem * bool)%type |- _ => destruct x as [its amb] end. cbn [fst snd] in *.
+    unfold leave_assign in HL. cbn [vs_stack push set_stack] in HL.
+    destruct (vs_stack st) as [|parent r'] eqn:S; [inv_ok; left; reflexivity|].
+    assert (G : forall X, (do out <- fold_left assign_step its (Ok (parent :: r', vs_attrs st, vs_enum_insts st));
+                           let '(stack, attrs, insts) := out in X stack attrs insts) = Ok s2 ->
+                exists out, fold_left assign_step its (Ok (parent :: r', vs_attrs st, vs_enum_insts st)) = Ok out /\
+                            X (fst (fst out)) (snd (fst out)) (snd out) = Ok s2).
+    { intros X HX. destruct (fold_left assign_step its _) as [[[stack attrs] insts]|] eqn:EF; cbn [bind] in HX; [|discriminate].
+      eexists. split; [reflexivity|exact HX]. }
+    destruct parent as [m|c|f|e|i]; try discriminate;
+      (apply G in HL; destruct HL as [out [HF HX]]; inv_ok; cbn [vs_stack]; apply assign_step_shape in HF; exact HF).
+  Qed.
+
+  Lemma enter_func_frame st f st' w : enter_func al d pref_doc warn st f = Ok (st', w) ->
+    exists fn, vs_stack st' = FFunc fn :: vs_stack st /\ f_name fn = fn_name f /\ f_id fn = id_from_stack st (fn_name f).
+  Proof.
+    unfold enter_func. intro H. inv_ok.
+    match goal with H : (let '(_, _) := ?X in _) = _ |- _ => destruct X as [rc ramb] end.
+    match goal with H : (let '(_, _) := ?X in _) = _ |- _ => destruct X as [r n] end. inv_ok.
+    eexists. split; [reflexivity|]. split; reflexivity.
+  Qed.
+
+  Definition add_fn (top : frame) (fn : func) : frame :=
+    match top with
+    | FModule m => FModule (mod_add_function m fn)
+    | FClass c => if str_eqb (f_name fn) (K"__init__") then FClass (cls_set_ctor c fn) else FClass (cls_add_method c fn)
+    | other => other
+    end.
+  Lemma add_fn_hdr top fn : hdr_eq top (add_fn top fn).
+  Proof. destruct top; cbn; auto. destruct (str_eqb _ _); destruct c; cbn; auto. Qed.
+
+  (* a function node adds one function (named as in the source, id = <owner id>/<name>) to the frame it is entered on *)
+  Lemma walk_func_exact st f st' w top rest :
+    walk_func al d pref_doc warn st f = Ok (st', w) -> vs_stack st = top :: rest ->
+    exists fn top1, f_name fn = fn_name f /\ f_id fn = id_from_stack st (fn_name f) /\ hdr_eq top top1 /\
+                    (forall m, top = FModule m -> top1 = top) /\
+                    vs_stack st' = add_fn top1 fn :: rest.
+  Proof.
+    unfold walk_func. intros H S. inv_ok. split_pairs.
+    match goal with E : enter_func _ _ _ _ _ _ = Ok (?a, _), E1 : leave_func ?b = Ok _, E0 : _ = Ok (?b, _) |- _ =>
+      rename a into s1; rename b into s2; rename E into EE; rename E1 into EL; rename E0 into EF end.
+    apply enter_func_frame in EE. destruct EE as [fn [S1 [N1 I1]]]. rewrite S in S1.
+    assert (INV : exists top1, vs_stack s2 = FFunc fn :: top1 :: rest /\ hdr_eq top top1 /\ (forall m, top = FModule m -> top1 = top)).
+    { destruct (str_eqb (fn_name f) (K"__init__")); [|inv_ok; exists top; split; [exact S1|split; [apply hdr_refl|auto]]].
+      assert (G : forall body sa wa, (exists ta, vs_stack sa = FFunc fn :: ta :: rest /\ hdr_eq top ta /\ (forall m, top = FModule m -> ta = top)) ->
+                fold_left (fun acc s => do cur <- acc;
+                    match s with
+                    | BAssign lvs ut => do s1 <- enter_assign al d (fst cur) lvs ut; do s2 <- leave_assign (fst s1); Ok (s2, wapp (snd cur) (snd s1))
+                    | _ => Ok cur
+                    end) body (Ok (sa, wa)) = Ok (s2, w) ->
+                exists top1, vs_stack s2 = FFunc fn :: top1 :: rest /\ hdr_eq top top1 /\ (forall m, top = FModule m -> top1 = top)).
+      { induction body as [|b r IH]; intros sa wa [ta [Sa [Ha Ma]]] HF; cbn [fold_left] in HF; [inv_ok; exists ta; auto|].
+        cbn [bind fst snd] in HF. destruct b; try (eapply IH; [|exact HF]; exists ta; auto).
+        destruct (enter_assign al d sa lvs ut) as [[sb wb]|] eqn:EA; cbn [bind fst snd] in HF.
+        - destruct (leave_assign sb) as [sc|] eqn:EB; cbn [bind] in HF.
+          + eapply IH; [|exact HF]. destruct (assign_pair _ _ _ _ _ _ EA EB) as [P|[P|P]].
+            * exists ta. rewrite P. auto.
+            * destruct P as [a [a' [r' [P1 [P2 [P3 P4]]]]]]. rewrite Sa in P1. inversion P1; subst. exfalso. eapply P4. reflexivity.
+            * destruct P as [f0 [b0 [b' [r' [P1 [P2 P3]]]]]]. rewrite Sa in P1. inversion P1; subst. exists b'. split; [exact P2|]. split; [eapply hdr_trans; eauto|].
+              intros m Hm. subst top. destruct b0; cbn in Ha; try contradiction. destruct b'; cbn in P3; try contradiction.
+              specialize (Ma m eq_refl). inversion Ma; subst.
+              (* a module frame below a function is never changed by an assignment: assign_step only touches classes and enums *)
+              clear -EA EB Sa P2.
+              unfold enter_assign in EA. inv_ok.
+              match goal with x : (list aitem * bool)%type |- _ => destruct x as [its0 amb0] end. cbn [fst snd] in *.
+              unfold leave_assign in EB. cbn [vs_stack push set_stack] in EB. rewrite Sa in EB.
+              destruct (fold_left _ its0 _) as [[[stk at_] ins]|] eqn:EFo; cbn [bind] in EB; [|discriminate]. inv_ok.
+              cbn [vs_stack] in P2. subst stk.
+              apply assign_fold_module in EFo. cbn [fst] in EFo. inversion EFo. reflexivity.
+          + exfalso. clear -HF. induction r as [|x r IHr]; cbn in HF; [discriminate|auto].
+        - exfalso. clear -HF. induction r as [|x r IHr]; cbn in HF; [discriminate|auto]. }
+      eapply G; [|exact EF]. exists top. split; [exact S1|split; [apply hdr_refl|auto]]. }
+    destruct INV as [top1 [S2 [H1 M1]]].
+    exists fn, top1. split; [exact N1|]. split; [exact I1|]. split; [exact H1|]. split; [exact M1|].
+    unfold leave_func in EL. rewrite S2 in EL. inv_ok. cbn [vs_stack]. unfold add_fn. destruct top1; reflexivity.
+  Qed.
+
+  Lemma hdr_not_func a b : hdr_eq a b -> (forall f, a <> FFunc f) -> (forall f, b <> FFunc f).
+  Proof. destruct a, b; cbn; try contradiction; intros; try discriminate. exfalso. eapply H0. reflexivity. Qed.
+
+  Lemma enter_class_frame st c st' w : enter_class al d st c = Ok (st', w) ->
+    exists cl, vs_stack st' = FClass cl :: vs_stack st /\ c_name cl = cd_name c /\ c_id cl = id_from_stack st (cd_name c).
+  Proof.
+    unfold enter_class. intro H. inv_ok. destruct (superclasses _ _) as [[sups exc] amb]. inv_ok.
+    eexists. split; [reflexivity|]. split; reflexivity.
+  Qed.
+  Lemma enter_enum_frame st c st' : enter_enum d st c = Ok st' ->
+    exists e, vs_stack st' = FEnum e :: vs_stack st /\ e_name e = cd_name c /\ e_id e = id_from_stack st (cd_name c).
+  Proof. unfold enter_enum. intro H. inv_ok. eexists. split; [reflexivity|]. split; reflexivity. Qed.
+
+  Definition add_cls (top : frame) (c : cls) : frame :=
+    match top with FModule m => FModule (mod_add_class m c) | FClass p => FClass (cls_add_class p c) | other => other end.
+  Definition add_enum (top : frame) (e : enum_) : frame :=
+    match top with FModule m => FModule (mod_add_enum m e) | other => other end.
+  Lemma add_cls_hdr top c : hdr_eq top (add_cls top c).
+  Proof. destruct top as [m|p|f|e|i]; cbn; auto; destruct p; cbn; auto. Qed.
+  Lemma add_enum_hdr top e : hdr_eq top (add_enum top e).
+  Proof. destruct top; cbn; auto. Qed.
+
+  Lemma leave_class_exact st st' c top rest : leave_class st = Ok st' -> vs_stack st = FClass c :: top :: rest ->
+    vs_stack st' = add_cls top c :: rest.
+  Proof. unfold leave_class. intros H S. rewrite S in H. destruct top; inv_ok; reflexivity. Qed.
+  Lemma leave_enum_exact st st' e top rest : leave_enum st = Ok st' -> vs_stack st = FEnum e :: top :: rest ->
+    vs_stack st' = add_enum top e :: rest.
+  Proof. unfold leave_enum. intros H S. rewrite S in H. destruct top; inv_ok; reflexivity. Qed.
+
+  (* what one member does to the frame it is entered on *)
+  Inductive effect := EffNone | EffFunc (fn : func) | EffClass (c : cls) | EffEnum (e : enum_) | EffInner.
+  Definition apply_effect (top1 : frame) (e : effect) (top' : frame) : Prop :=
+    match e with
+    | EffNone => top' = top1
+    | EffFunc fn => top' = add_fn top1 fn
+    | EffClass c => top' = add_cls top1 c
+    | EffEnum en => top' = add_enum top1 en
+    | EffInner => hdr_eq top1 top'
+    end.
+
+  Lemma walk_member_exact : forall m st st' w top rest,
+    walk_member al d pref_doc warn st m = Ok (st', w) -> vs_stack st = top :: rest -> (forall f, top <> FFunc f) ->
+    exists top' eff, vs_stack st' = top' :: rest /\ hdr_eq top top' /\
+      (forall md, top = FModule md ->
+         apply_effect top eff top' /\
+         match m, eff with
+         | (CMFunc f | CMDeco f), EffFunc fn => f_name fn = fn_name f /\ f_id fn = id_from_stack st (fn_name f)
+         | CMClass c, EffClass cl => is_enum_def c = false /\ c_name cl = cd_name c /\ c_id cl = id_from_stack st (cd_name c)
+         | CMClass c, EffEnum e => is_enum_def c = true /\ e_name e = cd_name c /\ e_id e = id_from_stack st (cd_name c)
+         | (CMOther _ _ | CMOver _ _ _ _ | CMAssign _ _), _ => True
+         | _, _ => False
+         end).
+  Proof.
+    induction m as [l u|f|f|n p i t|c n|n fu b r defs IH] using cmember_ind'; intros st st' w top rest H S NF; cbn [walk_member] in H.
+    - (* assignment *)
+      inv_ok. split_pairs.
+      match goal with EA : enter_assign _ _ _ _ _ = Ok (?a, _), EB : leave_assign ?a = Ok _ |- _ => destruct (assign_pair _ _ _ _ _ _ EA EB) as [P|[P|P]] end.
+      + exists top, EffNone. rewrite P, S. split; [reflexivity|]. split; [apply hdr_refl|]. intros md Hm. split; [reflexivity|exact I].
+      + destruct P as [a [a' [r' [P1 [P2 [P3 _]]]]]]. rewrite S in P1. inversion P1; subst. exists a', EffInner.
+        split; [exact P2|]. split; [exact P3|]. intros md Hm. split; [exact P3|exact I].
+      + destruct P as [f0 [b0 [b' [r' [P1 _]]]]]. rewrite S in P1. inversion P1; subst. exfalso. eapply NF. reflexivity.
+    - destruct (walk_func_exact _ _ _ _ _ _ H S) as [fn [top1 [N1 [I1 [H1 [M1 S1]]]]]].
+      exists (add_fn top1 fn), (EffFunc fn). split; [exact S1|]. split; [eapply hdr_trans; [exact H1|apply add_fn_hdr]|].
+      intros md Hm. rewrite (M1 md Hm). split; [reflexivity|]. split; assumption.
+    - destruct (walk_func_exact _ _ _ _ _ _ H S) as [fn [top1 [N1 [I1 [H1 [M1 S1]]]]]].
+      exists (add_fn top1 fn), (EffFunc fn). split; [exact S1|]. split; [eapply hdr_trans; [exact H1|apply add_fn_hdr]|].
+      intros md Hm. rewrite (M1 md Hm). split; [reflexivity|]. split; assumption.
+    - assert (NONE : Ok (st, w0) = Ok (st', w) -> exists top' eff, vs_stack st' = top' :: rest /\ hdr_eq top top' /\
+                (forall md, top = FModule md -> apply_effect top eff top' /\ True)).
+      { intro E. inv_ok. exists top, EffNone. split; [exact S|]. split; [apply hdr_refl|]. intros; split; [reflexivity|exact I]. }
+      assert (FUN : forall f, walk_func al d pref_doc warn st f = Ok (st', w) -> exists top' eff, vs_stack st' = top' :: rest /\ hdr_eq top top' /\
+                (forall md, top = FModule md -> apply_effect top eff top' /\ True)).
+      { intros f HF. destruct (walk_func_exact _ _ _ _ _ _ HF S) as [fn [top1 [N1 [I1 [H1 [M1 S1]]]]]].
+        exists (add_fn top1 fn), (EffFunc fn). split; [exact S1|]. split; [eapply hdr_trans; [exact H1|apply add_fn_hdr]|].
+        intros md Hm. rewrite (M1 md Hm). split; [reflexivity|exact I]. }
+      destruct i; [destruct p; [destruct t|]| |]; first [apply NONE; exact H | eapply FUN; exact H].
+    - inv_ok. exists top, EffNone. split; [exact S|]. split; [apply hdr_refl|]. intros; split; [reflexivity|exact I].
+    - (* class or enum *)
+      inv_ok. split_pairs. cbn [cd_defs cd_name] in *.
+      match goal with E0 : _ (?a, ?wa) defs = Ok (?b, _) |- _ => rename a into s1; rename b into s2; rename wa into w1; rename E0 into EG end.
+      (* the body keeps [top; rest] exactly and the header of the entered frame *)
+      assert (BODY : forall fr, vs_stack s1 = fr :: top :: rest -> (forall f, fr <> FFunc f) ->
+                     exists fr', vs_stack s2 = fr' :: top :: rest /\ hdr_eq fr fr').
+      { clear -EG IH. revert s1 w1 EG. induction IH as [|x xs Hx _ IHxs]; intros s1 w1 EG fr S1 NF1; [inv_ok; exists fr; split; [exact S1|apply hdr_refl]|].
+        destruct (class_child x && negb (is_placeholder x)); [|eapply IHxs; eauto].
+        cbn [fst snd] in EG. destruct (walk_member al d pref_doc warn s1 x) as [[sx wx]|] eqn:EX; cbn [bind fst snd] in EG; [|discriminate].
+        destruct (Hx _ _ _ _ _ EX S1 NF1) as [fr1 [eff [S2 [H2 _]]]].
+        destruct (IHxs _ _ EG fr1 S2 (hdr_not_func _ _ H2 NF1)) as [fr' [S3 H3]].
+        exists fr'. split; [exact S3|eapply hdr_trans; eauto]. }
+      destruct (is_enum_def (mkcdef n fu b r defs)) eqn:EN.
+      + inv_ok. match goal with E : enter_enum _ _ _ = Ok _ |- _ => apply enter_enum_frame in E; destruct E as [e0 [S1 [N1 I1]]] end.
+        rewrite S in S1. destruct (BODY (FEnum e0) S1 ltac:(discriminate)) as [fr' [S2 H2]].
+        destruct fr' as [ | |  |e1| ]; cbn in H2; try contradiction.
+        match goal with E : leave_enum _ = Ok _ |- _ => pose proof (leave_enum_exact _ _ _ _ _ E S2) as S3 end.
+        exists (add_enum top e1), (EffEnum e1). split; [exact S3|]. split; [apply add_enum_hdr|].
+        intros md Hm. split; [reflexivity|]. destruct H2 as [Hi Hn]. cbn [cd_name] in *. repeat split; congruence.
+      + match goal with E : enter_class _ _ _ _ = Ok _ |- _ => apply enter_class_frame in E; destruct E as [c0 [S1 [N1 I1]]] end.
+        rewrite S in S1. destruct (BODY (FClass c0) S1 ltac:(discriminate)) as [fr' [S2 H2]].
+        destruct fr' as [ |c1| | | ]; cbn in H2; try contradiction.
+        match goal with E : leave_class _ = Ok _ |- _ => pose proof (leave_class_exact _ _ _ _ _ E S2) as S3 end.
+        exists (add_cls top c1), (EffClass c1). split; [exact S3|]. split; [apply add_cls_hdr|].
+        intros md Hm. split; [reflexivity|]. destruct H2 as [Hi [Hn _]]. cbn [cd_name] in *. repeat split; congruence.
+  Qed.
+End Exact.
+
+(* ======================================================================================================== *)
+(* C03 / C12: the inventory of a module - every function, class and enum among the module's walked definitions    *)
+(* is registered in the module record exactly once, in source order, under its name and the id <module id>/<name> *)
+(* ======================================================================================================== *)
+Definition walked (m : mfile) : list cmember := filter (fun x => module_child x && negb (is_placeholder x)) (mf_defs m).
+Definition member_funcs (l : list cmember) : list fdef :=
+  flat_map (fun x => match x with CMFunc f | CMDeco f => [f] | _ => [] end) l.
+Definition member_classes (l : list cmember) : list cdef :=
+  flat_map (fun x => match x with CMClass c => if is_enum_def c then [] else [c] | _ => [] end) l.
+Definition member_enums (l : list cmember) : list cdef :=
+  flat_map (fun x => match x with CMClass c => if is_enum_def c then [c] else [] | _ => [] end) l.
+
+Section Inventory.
+  Variables (al : aliases) (d : docs) (pref_doc warn : bool).
+
+  Lemma id_at_module st md name : vs_stack st = [FModule md] -> id_from_stack st name = m_id md ++ K"/" ++ name.
+  Proof. intro S. unfold id_from_stack. rewrite S. cbn. reflexivity. Qed.
+
+  Definition grows (md1 md2 : module_) (ms : list cmember) : Prop :=
+    m_id md2 = m_id md1 /\
+    map f_name (m_functions md2) = map f_name (m_functions md1) ++ map fn_name (member_funcs ms) /\
+    map f_id (m_functions md2) = map f_id (m_functions md1) ++ map (fun f => m_id md1 ++ K"/" ++ fn_name f) (member_funcs ms) /\
+    map c_name (m_classes md2) = map c_name (m_classes md1) ++ map cd_name (member_classes ms) /\
+    map c_id (m_classes md2) = map c_id (m_classes md1) ++ map (fun c => m_id md1 ++ K"/" ++ cd_name c) (member_classes ms) /\
+    map e_name (m_enums md2) = map e_name (m_enums md1) ++ map cd_name (member_enums ms) /\
+    map e_id (m_enums md2) = map e_id (m_enums md1) ++ map (fun c => m_id md1 ++ K"/" ++ cd_name c) (member_enums ms).
+
+  Lemma grows_nil md : grows md md [].
+  Proof. unfold grows. cbn. rewrite !app_nil_r. repeat split. Qed.
+
+  Lemma grows_step md1 md2 md3 x xs : grows md1 md2 [x] -> grows md2 md3 xs -> grows md1 md3 (x :: xs).
+  Proof.
+    unfold grows, member_funcs, member_classes, member_enums. cbn [flat_map]. rewrite !app_nil_r.
+    intros [I1 [A1 [B1 [C1 [D1 [E1 F1]]]]]] [I2 [A2 [B2 [C2 [D2 [E2 F2]]]]]].
+    rewrite !map_app. rewrite I1 in *.
+    repeat split; try congruence;
+      [rewrite A2, A1|rewrite B2, B1|rewrite C2, C1|rewrite D2, D1|rewrite E2, E1|rewrite F2, F1]; rewrite <- app_assoc; reflexivity.
+  Qed.
+
+  Lemma fold_inventory : forall defs s1 w1 s2 w2 md1,
+    fold_left (fun acc x => do cur <- acc;
+                 if module_child x && negb (is_placeholder x)
+                 then do s' <- walk_member al d pref_doc warn (fst cur) x; Ok (fst s', wapp (snd cur) (snd s')) else Ok cur) defs (Ok (s1, w1)) = Ok (s2, w2) ->
+    vs_stack s1 = [FModule md1] ->
+    exists md2, vs_stack s2 = [FModule md2] /\ grows md1 md2 (filter (fun x => module_child x && negb (is_placeholder x)) defs).
+  Proof.
+    induction defs as [|x r IH]; intros s1 w1 s2 w2 md1 HF S1; cbn [fold_left filter] in *.
+    - inv_ok. exists md1. split; [exact S1|apply grows_nil].
+    - cbn [bind fst snd] in HF. destruct (module_child x && negb (is_placeholder x)) eqn:EW; [|eapply IH; eauto].
+      destruct (walk_member al d pref_doc warn s1 x) as [[sx wx]|] eqn:EX; cbn [bind fst snd] in HF; [|rewrite fold_err_module in HF; discriminate].
+      destruct (walk_member_exact al d pref_doc warn x _ _ _ _ _ EX S1 ltac:(discriminate)) as [top' [eff [S2 [H2 EF]]]].
+      destruct (EF md1 eq_refl) as [AE SH]. clear EF.
+      assert (exists mdx, top' = FModule mdx /\ grows md1 mdx [x]) as [mdx [ET GX]].
+      { apply andb_true_iff in EW as [MC _].
+        destruct x as [l u|f|f|n p i t|c|c n]; cbn in MC; try discriminate.
+        - destruct eff; try contradiction. destruct SH as [N1 I1]. cbn in AE. eexists. split; [exact AE|].
+          rewrite (id_at_module _ _ _ S1) in I1. unfold grows, member_funcs, member_classes, member_enums. cbn. rewrite !map_app. cbn.
+          rewrite N1, I1, !app_nil_r. repeat split.
+        - destruct eff; try contradiction. destruct SH as [N1 I1]. cbn in AE. eexists. split; [exact AE|].
+          rewrite (id_at_module _ _ _ S1) in I1. unfold grows, member_funcs, member_classes, member_enums. cbn. rewrite !map_app. cbn.
+          rewrite N1, I1, !app_nil_r. repeat split.
+        - destruct eff; try contradiction.
+          + destruct SH as [EN [N1 I1]]. cbn in AE. eexists. split; [exact AE|].
+            rewrite (id_at_module _ _ _ S1) in I1. unfold grows, member_funcs, member_classes, member_enums. cbn. rewrite EN, !map_app. cbn.
+            rewrite N1, I1, !app_nil_r. repeat split.
+          + destruct SH as [EN [N1 I1]]. cbn in AE. eexists. split; [exact AE|].
+            rewrite (id_at_module _ _ _ S1) in I1. unfold grows, member_funcs, member_classes, member_enums. cbn. rewrite EN, !map_app. cbn.
+            rewrite N1, I1, !app_nil_r. repeat split. }
+      subst top'. destruct (IH _ _ _ _ mdx HF S2) as [md2 [S3 G3]].
+      exists md2. split; [exact S3|]. eapply grows_step; eauto.
+  Qed.
+
+  Theorem module_inventory st m st' w :
+    walk_module al d pref_doc warn st m = Ok (st', w) -> vs_stack st = [] ->
+    exists md, vs_modules st' = dict_set (m_id md) md (vs_modules st) /\ m_id md = dots_to_slashes (mf_fullname m) /\
+      map f_name (m_functions md) = map fn_name (member_funcs (walked m)) /\
+      map f_id (m_functions md) = map (fun f => m_id md ++ K"/" ++ fn_name f) (member_funcs (walked m)) /\
+      map c_name (m_classes md) = map cd_name (member_classes (walked m)) /\
+      map c_id (m_classes md) = map (fun c => m_id md ++ K"/" ++ cd_name c) (member_classes (walked m)) /\
+      map e_name (m_enums md) = map cd_name (member_enums (walked m)) /\
+      map e_id (m_enums md) = map (fun c => m_id md ++ K"/" ++ cd_name c) (member_enums (walked m)).
+  Proof.
+    unfold walk_module. intros H S. inv_ok. split_pairs.
+    match goal with E : fold_left _ _ _ = Ok (?b, _), E0' : leave_module ?b = Ok _ |- _ => rename b into s2; rename E into EF; rename E0' into EL end.
+    pose (md0 := {| m_id := dots_to_slashes (mf_fullname m); m_name := if ends_with t_init_file (mf_path m) then K"__init__" else mf_name m;
+                    m_doc := match mf_first_doc m with Some x => x | None => [] end;
+                    m_qimports := fst (imports_of m); m_wimports := snd (imports_of m); m_classes := []; m_functions := []; m_enums := [] |}).
+    assert (S1 : vs_stack (enter_module st m) = [FModule md0]).
+    { unfold enter_module, md0. destruct (imports_of m). cbn. rewrite S. reflexivity. }
+    destruct (fold_inventory _ _ _ _ _ _ EF S1) as [md2 [S2 G]].
+    unfold leave_module in EL. rewrite S2 in EL. inv_ok.
+    destruct G as [I1 [A1 [B1 [C1 [D1 [E1 F1]]]]]]. cbn in *.
+    exists md2. cbn [vs_modules]. split.
+    - f_equal. pose proof (walk_module_adds al d pref_doc warn st m) as WA. clear WA.
+      (* the module dictionary is not touched by the members *)
+      assert (K : vs_modules s2 = vs_modules (enter_module st m)).
+      { clear -EF. revert EF. generalize (enter_module st m) w0. induction (mf_defs m) as [|x r IH]; intros s1 w1 EF; cbn [fold_left] in EF; [inv_ok; reflexivity|].
+        cbn [bind fst snd] in EF. destruct (module_child x && negb (is_placeholder x)); [|eapply IH; exact EF].
+        destruct (walk_member al d pref_doc warn s1 x) as [[sx wx]|] eqn:EX; cbn [bind fst snd] in EF; [|rewrite fold_err_module in EF; discriminate].
+        rewrite (IH _ _ EF). apply walk_member_pres in EX. destruct EX as [_ [KM _]]. exact KM. }
+      rewrite K. unfold enter_module. destruct (imports_of m). reflexivity.
+    - fold (walked m) in *. rewrite I1. repeat split; assumption.
+  Qed.
+End Inventory.
+
+Theorem walk_member_single_owner : forall al d pref_doc warn m st st' w top rest,
+  walk_member al d pref_doc warn st m = Ok (st', w) -> vs_stack st = top :: rest -> (forall f, top <> FFunc f) ->
+  exists top', vs_stack st' = top' :: rest /\ hdr_eq top top'.
+Proof. intros. destruct (walk_member_exact al d pref_doc warn m st st' w top rest) as [t [e [A [B _]]]]; eauto. Qed.
